@@ -85,7 +85,7 @@ def run_proc(cmd, timeout, env=None, vlimit_kb=None, cwd=None):
     def kill():
         timed_out[0] = True
         try:
-            p.kill()
+            os.kill(p.pid, signal.SIGKILL)      # not p.kill(): that polls and would reap the child before wait4
         except OSError:
             pass
     tm = threading.Timer(timeout, kill)
@@ -150,6 +150,17 @@ def innermost_frame(text):
         if m.group(3) in CHIBI_FILES:
             return m.group(1), m.group(3), int(m.group(4))
     return None
+
+
+def recursing_function(text):
+    """the chibicc function that occurs most often in a backtrace: names the recursion that overflowed the stack"""
+    cnt = {}
+    for m in FRAME.finditer(text):
+        if m.group(3) in CHIBI_FILES:
+            cnt[m.group(1)] = cnt.get(m.group(1), 0) + 1
+    if not cnt:
+        return None
+    return sorted(cnt.items(), key=lambda kv: (-kv[1], kv[0]))[0][0]
 
 
 def norm_msg(s):
@@ -224,7 +235,7 @@ class Runner:
                 k = 'ub:' + norm_msg(m.group(1)) if m else 'unknown'
             if k == 'stack-overflow':
                 r['cls'] = 'stack-overflow'
-                r['site'] = fr[1] if fr else '?'
+                r['site'] = recursing_function(text) or '?'
             elif k in ('SEGV', 'FPE', 'ABRT', 'BUS', 'ILL'):
                 r['cls'] = 'signal'
                 r['detail'] = k
@@ -301,7 +312,8 @@ class Runner:
                 fname, m = m2.group(1), re.match(r'(-?\d+)', m2.group(2))
         if not m:
             if re.match(r'(unknown argument|-include:|<command line>|no input files|cannot open output file)', first) \
-               or first.startswith(src + ': '):
+               or first.startswith(src + ': ') \
+               or any(first.startswith(o.replace('@DIR@', d) + ': ') for o in case.get('opts', []) if not o.startswith('-')):
                 r['cls'] = 'diag'
                 r['detail'] = 'command-line'
                 return r
@@ -316,7 +328,8 @@ class Runner:
             r['detail'] = 'command-line'
             return r
         try:
-            data = open(fname, 'rb').read()
+            cwd = (case.get('cwd') or '').replace('@SNAP@', self.ctx.snapshot)
+            data = open(os.path.join(cwd, fname) if cwd else fname, 'rb').read()
         except OSError:
             r['cls'] = 'bad-location'
             r['site'] = 'file'
@@ -336,10 +349,13 @@ class Runner:
         c, out = self.cmd(exe, src, d, case)
         if os.path.exists(out):
             os.unlink(out)
+        cwd = case.get('cwd')
+        if cwd:
+            cwd = cwd.replace('@SNAP@', self.ctx.snapshot)
         if sanitized:
-            st, err, rss = run_proc(c, ASAN_TIMEOUT, env=self.env_asan())
+            st, err, rss = run_proc(c, ASAN_TIMEOUT, env=self.env_asan(), cwd=cwd)
         else:
-            st, err, rss = run_proc(c, TIMEOUT, env=self.base_env, vlimit_kb=4_000_000)
+            st, err, rss = run_proc(c, TIMEOUT, env=self.base_env, vlimit_kb=4_000_000, cwd=cwd)
         r = self.classify(st, err, rss, src, d, case, out, sanitized)
         r['stderr'] = err[:1500].decode('utf-8', 'replace')
         if r['cls'] == 'ok' and not sanitized and not ({'-E', '-M'} & set(case.get('opts', []))):
@@ -438,9 +454,10 @@ def ddmin(atoms, test, budget):
 
 def shrink(runner, case, sig, budget_runs):
     cls = sig.split('@')[0]
-    which = 'asan' if cls in ('signal', 'sanitizer', 'stack-overflow') else 'plain'
-    if cls == 'signal' and case.get('_plain_only'):
-        which = 'both'
+    which = 'asan' if cls in ('sanitizer', 'stack-overflow') else ('both' if cls == 'signal' else 'plain')
+    if cls in ('timeout', 'resource'):
+        budget_runs = min(budget_runs, 6)
+    deadline = time.time() + (60 if cls in ('timeout', 'resource') else 30)
     data = case['data']
     textual = case.get('textual', True)
     atoms = G.lex_atoms(data) if textual and len(data) < 200000 else None
@@ -453,8 +470,18 @@ def shrink(runner, case, sig, budget_runs):
     budget = [budget_runs]
 
     def test(at):
+        if time.time() > deadline:
+            budget[0] = 0
+            return False
         c = dict(case, data=b''.join(at))
         c.pop('path', None)
+        if cls == 'valid-rejected':
+            d = os.path.join(runner.root, 'g%d' % next(runner.ctr))
+            os.makedirs(d)
+            ok = gcc_accepts(runner.ctx, c['data'], d, case.get('gcc_opts', []))
+            shutil.rmtree(d, ignore_errors=True)
+            if not ok:
+                return False
         r = runner.run_case(c, which=which)
         return r['final']['sig'] == sig
     c0 = dict(case)
@@ -486,9 +513,13 @@ def known_map():
 
 
 def match_known(sig, km):
+    import fnmatch
     m, by_site = km
     if sig in m:
         return m[sig]
+    for pat, fid in m.items():
+        if any(ch in pat for ch in '*?[') and fnmatch.fnmatchcase(sig, pat):
+            return fid
     site = sig.split('@', 1)[1] if '@' in sig else ''
     return by_site.get(re.sub(r'\W', '_', site))
 
@@ -552,6 +583,18 @@ def campaign(ctx, corr, cases, runner, km, budget_shrink=120, label=''):
             results[i] = {'final': {'cls': 'harness-error', 'site': type(ex).__name__, 'sig': 'harness-error', 'detail': str(ex)[:200]}}
     with concurrent.futures.ThreadPoolExecutor(max_workers=NPROC) as ex:
         list(ex.map(work, range(len(cases))))
+    slow = [i for i, r in enumerate(results) if r['final']['cls'] in ('timeout', 'resource')]
+    if slow:
+        def again(i):
+            r2 = runner.run_case(cases[i], which='plain')
+            if r2['final']['cls'] not in ('timeout', 'resource'):
+                results[i] = runner.run_case(cases[i])
+                return 1
+            return 0
+        with concurrent.futures.ThreadPoolExecutor(max_workers=4) as ex:
+            n = sum(ex.map(again, slow))
+        if n:
+            corr.count('timeout_not_reproduced_rerun', n)
     clusters = {}
     for case, res in zip(cases, results):
         f = res['final']
@@ -588,10 +631,14 @@ def report_clusters(ctx, corr, runner, clusters, km, budget_shrink):
         c = dict(case)
         if res['final']['cls'] == 'signal' and not (res.get('asan') and res['asan']['cls'] in BAD):
             c['_plain_only'] = True
-        if case['gen'] in ('suite', 'self'):
-            c['data'] = open(case['path'], 'rb').read() if case.get('path') else case['data']
+        if case.get('path'):
+            c['opts'] = list(c.get('opts', [])) + ['-I' + os.path.dirname(os.path.join(
+                (case.get('cwd') or '').replace('@SNAP@', runner.ctx.snapshot), case['path']))]
         try:
-            small, used = shrink(runner, c, sig, budget_shrink)
+            if match_known(sig, km):
+                small, used = c['data'], 0          # listed call site: no need to minimise again
+            else:
+                small, used = shrink(runner, c, sig, budget_shrink)
         except Exception as ex:
             small, used = c['data'], -1
             ctx.notes.append(f'shrink failed for {sig}: {ex}')
